@@ -85,6 +85,8 @@ def evaluate(spec):
             sig, detail = "packets of no known connection in the output", repr(stray[0])
     labels = ["m:" + ("absent" if opts.get("m") is None else "bare" if not opts["m"] else "pairs%d" % len(opts["m"])),
               "p:%d%s" % (len(opts.get("p") or []), "rep" if opts.get("p_repeat") else ""), "kinds:" + "+".join(sorted({c["kind"] for c in spec["conns"]}))]
+    if opts.get("m") is not None and any(c["ep"]["cport"] == model(opts, c["ep"]["sport"])[1] for c in spec["conns"]):
+        labels.append("client-port-equals-exported-server-port")
     if len({(c["ep"]["cip"], c["ep"]["cport"]) for c in spec["conns"]}) < len(spec["conns"]):
         labels.append("shared-client-socket")
     sports = {c["ep"]["sport"] for c in spec["conns"]}
@@ -124,6 +126,11 @@ def spec_strategy(draw):
                      for j, a in enumerate(srcs)]
     else:
         opts["m"] = None
+    if opts["m"] is not None and draw(st.integers(0, 3)) == 0:
+        # the client port of connection 0 equals the port its server port is exported as (never a selected server port itself)
+        tgt = model(opts, conns[0]["ep"]["sport"])[1]
+        if tgt not in DEFAULT_PORTS | set(p) and tgt not in {c["ep"]["cport"] for c in conns} and tgt > 0:
+            conns[0]["ep"] = dict(conns[0]["ep"], cport=tgt)
     if share:
         # one client socket (address and port) talks to several server ports of one host, or to several hosts: the same client address
         # and port in connection 0 and connection 1, told apart by the server side only (kept on different exported ports when the host is the same)
